@@ -119,7 +119,8 @@ class Recorder:
         self.trig = ()
         self.cur_inst = ""
         self._rec_seen = {}     # (inst, exec) -> snapshot
-        self._hist_seen = {}    # (inst, exec) -> length
+        self._hist_seen = {}
+        self._hist_last = {}    # (inst, exec) -> length
         self.enabled = True
         self.frame_ops = 0
 
@@ -224,6 +225,13 @@ class Recorder:
             self.emit("pub", kind="rpc", fn=key, body=_json_or_text(m["body"]), **base)
 
     # -- stores -----------------------------------------------------------------------------
+    @staticmethod
+    def _hist_key(e):
+        try:
+            return (e.get("id"), e.get("type"), str(e.get("timestamp")))
+        except Exception:
+            return repr(e)[:80]
+
     def sync_stores(self, transient=False):
         """Emit `rec` / `hist` events for every change of the execution records and histories
         since the last observation point (called before every broker operation is logged, so
@@ -241,13 +249,18 @@ class Recorder:
                     h = hist[arn]
                     n0 = self._hist_seen.get((skey, arn), 0)
                     n1 = len(h)
-                    if n1 < n0:
+                    # the list may have been replaced and grown again between two observations: compare the last
+                    # event seen with what now stands in its place
+                    replaced = n0 > 0 and n1 >= n0 and self._hist_key(h[n0 - 1]) != self._hist_last.get((skey, arn))
+                    if n1 < n0 or replaced:
                         self.emit("histcut", i=name, exec=arn, old=n0, new=n1)
                         n0 = 0
                     for j in range(n0, n1):
                         e = h[j]
                         self.emit("hist", i=name, exec=arn, pos=j + 1, event=dict(e))
                     self._hist_seen[(skey, arn)] = n1
+                    if n1:
+                        self._hist_last[(skey, arn)] = self._hist_key(h[n1 - 1])
                 execs = I.engine.executions
                 for arn in list(execs.keys()):
                     r = execs[arn]
@@ -408,6 +421,7 @@ class World:
             import vsim.fakeredis as fr
             fr.install()
             fr.reset_server()
+            _quiet_store_finalisers()
             self.store_url = "redis://localhost:6379"
         self.store_kind = store
         self.loop = asyncio.new_event_loop()
@@ -822,6 +836,21 @@ class World:
         I = self.inst[inst]
         r = I.engine.executions.get(arn)
         return dict(r) if r else None
+
+
+def _quiet_store_finalisers():
+    """A RedisStore dropped without stop() (a crashed instance) complains from __del__ when it is collected
+    ("Exception ignored in ..."): noise on stderr, not an observation."""
+    if getattr(sys, "_vsim_quiet", False):
+        return
+    prev = sys.unraisablehook
+
+    def hook(u):
+        if "RedisStore.__del__" in repr(getattr(u, "object", None)):
+            return
+        prev(u)
+    sys.unraisablehook = hook
+    sys._vsim_quiet = True
 
 
 def _map_concurrency(asl):
